@@ -273,6 +273,19 @@ impl<'a, 'b> G<'a, 'b> {
                 let e = self.expr(0);
                 let e2 = self.expr(0);
                 self.f.ctx("assign");
+                if self.c.chance(1, 3) {
+                    // a reassigned variable as the sole child of a component, in an arrow with an
+                    // expression body / a block body / at statement level (the captured copy)
+                    self.f.jsx += 1;
+                    self.f.sole_ident_or_call_child = true;
+                    self.f.ctx("reassigned-variable-as-sole-child");
+                    let m = self.fresh("k");
+                    return match self.c.pick(3) {
+                        0 => format!("let {n} = {e};\n{n} = {e2};\nexport const {m} = () => <C>{{{n}}}</C>;"),
+                        1 => format!("let {n} = {e};\n{n} = {e2};\nexport const {m} = () => {{ return <C>{{{n}}}</C>; }};"),
+                        _ => format!("let {n} = {e};\n{n} = {e2};\nexport const {m} = <C>{{{n}}}</C>;"),
+                    };
+                }
                 format!("let {n} = {e};\n{n} = {e2};")
             }
             4 => {
